@@ -34,6 +34,7 @@ type Env struct {
 	depth int
 	next  *Env // back-edge values (for `next.x` in loop ghost updates)
 	cur   *State // the non-old state while translating inside old(...)
+	loopHead *ssa.BasicBlock // loop header for $i / $visited when `at` is not the header
 }
 
 type transErr string
